@@ -13,6 +13,9 @@ NT = len(gs.TOKENS)
 # nearly-valid queries that need more than one edit of a corpus query to be reached: every
 # non-singular shape as a comparison operand / ValueType argument, and the invalid corpus of C15
 HANDWRITTEN = [
+    # number literals beyond the range of a double, with and without fraction / exponent sign
+    "$[?@.a == 1e400]", "$[?@ < 17e310]", "$[?@ == -1E999]", "$[?@ == 1.5e400]", "$[?1e400 == @]", "$[?@.a == 1e+400]",
+    "$[?@ == 1e-400]", "$[\n?@ ==\n 2e308]", "$[?length(@) < 1e309]",
     # integers just outside / at the I-JSON range, in index and in every slice slot
     "$[9007199254740992]", "$[-9007199254740992]", "$[1:9007199254740992]", "$[-9007199254740992:]",
     "$[::9007199254740992]", "$[9007199254740992:1]", "$[?@[1:9007199254740992]]", "$[?count(@[::-9007199254740992]) == 1]",
